@@ -175,7 +175,7 @@ func (c *ctl) hook(point, stage string, seq uint64, raw []byte, val int64) {
 
 func (c *ctl) post(a *arrival) { c.arrCh <- a }
 
-var gateTimeout = 8 * time.Second
+var gateTimeout = 20 * time.Second
 
 // await returns the first arrival matching m (pending ones first).
 func (c *ctl) await(m func(*arrival) bool, timeout time.Duration) *arrival {
